@@ -1,94 +1,74 @@
 #!/usr/bin/env python3
-"""Assemble /verif/seeded/<ID>_m<k>/ from the sub-agents' outputs (/tmp/mutout/<ID>/m<k>),
-the confirmation log (tools/confirm_mutant.sh lines) and the detection table below.
-usage: make_seeded.py <confirm.log>"""
-import json, os, re, shutil, sys
+"""Write meta.json for every /verif/seeded/<name>/ and /verif/seeded/INDEX.md from
+ - the confirmation logs (tools/confirm_mutant.sh lines; files given as arguments),
+ - /verif/seeded/regression.tsv (tools/regress_mutants.sh: last line per (change, check) wins),
+ - tools/seeded_notes.json (name -> [how it is caught, "strengthened"|""]).
+usage: make_seeded.py <confirm.log>..."""
+import json, os, re, sys
 
-# which check(s) catch which seeded change, as observed with tools/try_mutant.sh (quick tier)
-DETECT = {
- "C01_m1": ("C01", "caught", "H_C01_frame/H_C01_tags: checksum text has two characters when sum<10"),
- "C01_m2": ("C01", "caught after strengthening", "H_C01_reuse was added for it (first ToBytes result overwritten by the second)"),
- "C02_m1": ("C02,C18", "caught", "H_C02_roundtrip on templates 12/19/20 (entries split on unanchored first tag)"),
- "C02_m2": ("C02", "caught", "H_C02_roundtrip with the 64-bit extreme values (lenSel 9): MaxUint64 serialized as -1"),
- "C03_m1": ("C03", "caught", "H_C03_damage in CheckSum.value (substitute '+', delete/insert leading 0) and H_C03_accept"),
- "C03_m2": ("C03", "caught", "H_C03_damage insertion of 0x00 into BeginString, non-strict jobs"),
- "C04_m1": ("C04", "caught", "H_C04_reader one-byte reads / cuts inside <SOH>10="),
- "C04_m2": ("C04", "caught after strengthening", "scenario 2 (5000-byte message followed by small ones) was added for it"),
- "C05_m1": ("C05", "caught", "H_C05_sched: application Send vs inbound reply / timer / reject with one preemption"),
- "C05_m2": ("C05", "caught", "H_C05_step with symbolic ResetSeqNumFlag: counter not 1 after the logon exchange"),
- "C06_m1": ("C06", "caught", "H_C06_acceptor two-step (refused Logon first, then out-of-range interval accepted)"),
- "C06_m2": ("C06", "caught", "H_C06_acceptor two-step with approval by username (stale credentials)"),
- "C07_m1": ("C07", "?", ""),
- "C07_m2": ("C07", "?", ""),
- "C08_m1": ("C08", "caught", "H_C08_heartbeat from the waiting-for-TestRequest-answer state"),
- "C08_m2": ("C08", "caught after strengthening", "time.NewTimer/Reset modelled as armed waits; H_C08_timer asserts every wait ends by lastRefresh+T+T/10"),
- "C09_m1": ("C08,C09", "caught after strengthening", "H_C08_timer now takes its own clock reading at entry and asserts lastUpdate >= entry"),
- "C09_m2": ("C09", "caught", "H_C09_probe scenario 1 with a non-Heartbeat message in the second period; H_C08_refresh"),
- "C10_m1": ("C10", "?", ""),
- "C10_m2": ("C10", "?", ""),
- "C11_m1": ("C11", "caught", "H_C11_vbt with message == tag"),
- "C11_m2": ("C11", "caught", "unwinding bound in findField + native replay times out (hang)"),
- "C14_m1": ("C14", "caught", "H_C14_echo from the waiting-for-TestRequest-answer pre-state"),
- "C14_m2": ("C14,C02", "patch no longer applies", "rewrites scanKeyValue, which the parser fixes changed; not rebased"),
- "C15_m1": ("C15", "?", ""),
- "C15_m2": ("C15", "?", ""),
- "C16_m1": ("C16", "?", ""),
- "C16_m2": ("C16", "?", ""),
- "C17_m1": ("C17", "caught after strengthening", "strconv.AppendFloat modelled; counterexample replayed natively with the boundary-float table (1e-05)"),
- "C17_m2": ("C17", "caught", "H_C17_fields templates 3/6/12 with an unpopulated nested component"),
- "C18_m1": ("C04", "caught", "H_C04_reader scenario 4 (110=100 field)"),
- "C18_m2": ("C18", "caught", "H_C02_roundtrip on adversarial templates 19/20"),
- "C19_m1": ("C19", "caught after strengthening", "H_C19_send with a handler that modifies the message"),
- "C19_m2": ("C19", "caught", "H_C19_send: refusing handler last in its pool"),
- "C20_m1": ("C20", "?", ""),
- "C20_m2": ("C20", "?", ""),
-}
-if os.path.exists('/verif/seeded/detect_override.json'):
-    DETECT.update({k: tuple(v) for k, v in json.load(open('/verif/seeded/detect_override.json')).items()})
-
+notes = json.load(open('/verif/tools/seeded_notes.json'))
 confirm = {}
-if len(sys.argv) > 1 and os.path.exists(sys.argv[1]):
-    for l in open(sys.argv[1]):
+for a in sys.argv[1:]:
+    if os.path.exists(a):
+        for l in open(a):
+            m = re.match(r'CONFIRM (\S+) (.*)', l.strip())
+            if m:
+                confirm[m.group(1)] = m.group(2)
+if os.path.exists('/verif/seeded/confirm.log'):
+    for l in open('/verif/seeded/confirm.log'):
         m = re.match(r'CONFIRM (\S+) (.*)', l.strip())
-        if m:
+        if m and m.group(1) not in confirm:
             confirm[m.group(1)] = m.group(2)
+with open('/verif/seeded/confirm.log', 'w') as f:
+    for k in sorted(confirm):
+        f.write(f'CONFIRM {k} {confirm[k]}\n')
+
+reg = {}
+if os.path.exists('/verif/seeded/regression.tsv'):
+    for l in open('/verif/seeded/regression.tsv'):
+        p = l.rstrip('\n').split('\t')
+        if len(p) >= 3:
+            reg.setdefault(p[0], {})[p[1]] = (p[2], p[3] if len(p) > 3 else '')
 
 rows = []
-for pid in sorted(os.listdir('/tmp/mutout')):
-    for mk in ('m1', 'm2'):
-        src = f'/tmp/mutout/{pid}/{mk}'
-        if not os.path.isdir(src):
-            continue
-        name = f'{pid}_{mk}'
-        dst = f'/verif/seeded/{name}'
-        os.makedirs(dst, exist_ok=True)
-        for f in ('patch.diff', 'demo_test.go', 'NOTES.md'):
-            if os.path.exists(f'{src}/{f}'):
-                shutil.copy(f'{src}/{f}', f'{dst}/{f}')
-        # the demonstration is kept under a name the go tool ignores inside /verif
-        if os.path.exists(f'{dst}/demo_test.go'):
-            os.replace(f'{dst}/demo_test.go', f'{dst}/demo_test.go.txt')
-        notes = open(f'{dst}/NOTES.md').read() if os.path.exists(f'{dst}/NOTES.md') else ''
-        det = DETECT.get(name, (pid, '?', ''))
-        meta = {
-            "property": pid,
-            "name": name,
-            "author": "independent sub-agent given only the property text and a scratch worktree",
-            "breaks": pid,
-            "needs_to_manifest": next((l.strip('-* ').strip() for l in notes.splitlines() if re.search(r'(?i)(condition|needs|trigger|manifest)', l)), ''),
-            "confirmed_by_me": confirm.get(name, "not run"),
-            "confirmation_cmd": f"tools/confirm_mutant.sh /verif/seeded/{name} (scratch worktree: demo passes clean, patch applies and builds, pinned suite passes, demo fails with patch)",
-            "checked_with": f"tools/try_mutant.sh /verif/seeded/{name}/patch.diff {det[0].replace(',', ' ')}",
-            "detected_by": det[0], "detection": det[1], "how": det[2],
-        }
-        json.dump(meta, open(f'{dst}/meta.json', 'w'), indent=1)
-        rows.append((name, det[0], det[1], det[2], confirm.get(name, 'not run')))
+for name in sorted(os.listdir('/verif/seeded')):
+    d = f'/verif/seeded/{name}'
+    if not os.path.isdir(d) or not os.path.exists(f'{d}/patch.diff'):
+        continue
+    pid = re.match(r'(C\d+)', name).group(1)
+    txt = open(f'{d}/NOTES.md').read() if os.path.exists(f'{d}/NOTES.md') else ''
+    how, strengthened = (notes.get(name) or ['', ''])[:2]
+    r = reg.get(name, {})
+    caught_by = [c for c, (rc, _) in r.items() if rc == '1']
+    if caught_by:
+        status = 'caught' + (' after strengthening' if strengthened else '')
+    elif any(rc == 'no-apply' for rc, _ in r.values()):
+        status = 'patch no longer applies to HEAD'
+    elif r:
+        status = 'NOT caught (' + ', '.join(f'{c}: exit {rc}' for c, (rc, _) in r.items()) + ')'
+    else:
+        status = 'not run'
+    if name in notes and len(notes[name]) > 2 and notes[name][2]:
+        status = notes[name][2]
+    first = next((f for c, (rc, f) in r.items() if rc == '1' and f), '')
+    meta = {
+        "property": pid, "name": name,
+        "author": "independent sub-agent given only the property text and a scratch worktree of /repo",
+        "needs_to_manifest": next((l.strip('-* ').strip() for l in txt.splitlines() if re.search(r'(?i)(condition|needs|trigger|manifest)', l)), ''),
+        "confirmed_by_me": confirm.get(name, "not run"),
+        "confirmation_cmd": f"tools/confirm_mutant.sh /verif/seeded/{name} (scratch worktree of /repo HEAD: demonstration passes clean, patch applies and builds, pinned suite passes, demonstration fails with the patch)",
+        "checked_with": "tools/regress_mutants.sh " + name + " (git -C /repo apply patch.diff; bin/gosym check <id> --tier quick; git -C /repo checkout -- .)",
+        "checks_run": {c: {"exit": rc, "first_case": f} for c, (rc, f) in r.items()},
+        "detected_by": caught_by, "detection": status, "how": how,
+    }
+    json.dump(meta, open(f'{d}/meta.json', 'w'), indent=1)
+    rows.append((name, ','.join(caught_by) or '-', status, how or first, confirm.get(name, 'not run')))
 
 with open('/verif/seeded/INDEX.md', 'w') as f:
-    f.write("# Seeded changes\n\nEach directory holds `patch.diff` (against /repo HEAD at seeding time), `demo_test.go.txt` (the author's demonstration; copy to the package named in its first line as `*_test.go`), `NOTES.md` (author's notes) and `meta.json`.\n\n")
-    f.write("| change | check(s) | result | how | my confirmation (scratch worktree) |\n|---|---|---|---|---|\n")
+    f.write("# Seeded changes\n\nEach directory holds `patch.diff` (against /repo HEAD; rebased by hand where a later fix moved the code, the original kept as `patch.orig.diff`), `demo_test.go.txt` (the author's demonstration; copy to the package named in its first line as `*_test.go`), `NOTES.md` (author's notes) and `meta.json`. Names: `<property>_m<k>` first round, `<property>b_…` second, `<property>c_…` third.\n\n")
+    f.write("| change | caught by | result | how / first reported case | my confirmation (scratch worktree) |\n|---|---|---|---|---|\n")
     for r in rows:
-        f.write("| %s | %s | %s | %s | %s |\n" % r)
+        f.write("| %s | %s | %s | %s | %s |\n" % tuple(str(x).replace('|', '\\|') for x in r))
     n = len(rows); c = sum(1 for r in rows if r[2].startswith('caught'))
     f.write(f"\n{c} of {n} seeded changes are caught by the registered quick checks.\n")
 print(len(rows), "seeded entries")
